@@ -9,9 +9,10 @@ rc=0
 build_one() {
   d=$1; id=$(basename $d); ID=$(echo $id | tr a-z A-Z); W=$VERIF_WORK/$ID; mkdir -p $W
   GROUPS_=$(cat $d/OVERLAYS 2>/dev/null | tr '\n' ' ')
-  if [ -x $d/pre.sh ]; then EXTRA=$($d/pre.sh "$W") || return 1; GROUPS_="$GROUPS_ $EXTRA"; fi
-  python3 mc/tools/mkoverlay.py $W/overlay.json $GROUPS_ || return 1
+  EXTRA=""; if [ -x $d/pre.sh ]; then EXTRA=$($d/pre.sh "$W") || return 1; fi
+  python3 mc/tools/mkoverlay.py $W/overlay.json $GROUPS_ ${EXTRA:-} || return 1
   ( cd mc && $GO build -overlay $W/overlay.json -o $W/$id.bin ./props/$id ) > $W/build.log 2>&1 || { echo "setup: build of $ID failed"; tail -20 $W/build.log; return 1; }
+  if [ -x $d/build_extra.sh ]; then $d/build_extra.sh "$W" > $W/build_extra.log 2>&1 || { echo "setup: extra build of $ID failed"; tail -20 $W/build_extra.log; return 1; }; fi
   echo "setup: built $ID"
 }
 # first one serially (fills the cache with the tink packages), the rest in parallel
